@@ -281,26 +281,28 @@ theorem bind_q (F : Plugin.Facts) (s : State) (ns name : String) (uid : Nat) (no
     · exact Quiet7.refl s
     · split
       · exact Quiet7.refl s
-      · rename_i infos hinf
-        split
+      · split
         · exact Quiet7.refl s
-        · have hcond : bindAllocates infos pod = false ∨ (keyOf pod).pool = "" := by
-            unfold bindOK at hok
-            rw [hpod] at hok
-            simp only [hinf] at hok
-            rcases Bool.or_eq_true_iff.mp hok with h | h
-            · left; simpa using h
-            · right; simpa using h
-          have ba := bindAlloc_q s pod node (policyOf pod) infos ch.pick (bindInfos_shape s pod ch infos hinf) hcond
+        · rename_i infos hinf
           split
           · exact Quiet7.refl s
-          · exact ba
-          · have bl := ba.trans (bindLoop_q (keyOf pod) node { policy := policyOf pod, node := node, uid := pod.uid }
-              (infos.filterMap id) ((bindAlloc s pod node { policy := policyOf pod, node := node, uid := pod.uid } infos
-                ch.pick).2.2.filterMap id) (bindAlloc s pod node { policy := policyOf pod, node := node, uid := pod.uid } infos
-                ch.pick).1)
+          · have hcond : bindAllocates infos pod = false ∨ (keyOf pod).pool = "" := by
+              unfold bindOK at hok
+              rw [hpod] at hok
+              simp only [hinf] at hok
+              rcases Bool.or_eq_true_iff.mp hok with h | h
+              · left; simpa using h
+              · right; simpa using h
+            have ba := bindAlloc_q s pod node (policyOf pod) infos ch.pick (bindInfos_shape s pod ch infos hinf) hcond
             split
-            · exact bl.trans (bindCommit_q _ pod ns name uid node _)
-            · exact bl
+            · exact Quiet7.refl s
+            · exact ba
+            · have bl := ba.trans (bindLoop_q (keyOf pod) node { policy := policyOf pod, node := node, uid := pod.uid }
+                (infos.filterMap id) ((bindAlloc s pod node { policy := policyOf pod, node := node, uid := pod.uid } infos
+                  ch.pick).2.2.filterMap id) (bindAlloc s pod node { policy := policyOf pod, node := node, uid := pod.uid } infos
+                  ch.pick).1)
+              split
+              · exact bl.trans (bindCommit_q _ pod ns name uid node _)
+              · exact bl
 
 end Galaxy.PluginC07
